@@ -23,6 +23,8 @@ import physq
 import terms
 
 LEVEL = "exploration"
+# nested term evaluation (EvalQR over product terms) is deep recursion for TLC: give its threads room
+JAVA_OPTS = ["-Xss64m"]
 RULE = ("cases = terminal states of the Electrolytes_MC slices (ion lists with histories; DH points) "
         "x the call forms listed in the case + seeded ion-list traces judged by ElectrolytesTrace; "
         "distinct = distinct (case input, form); non-trivial = ionic strength > 0 with >= 2 ions, or a "
@@ -333,17 +335,16 @@ def run_trace(item):
 
 
 # ------------------------------------------------------------------ driver
-SLICES_Q = [("Electrolytes_MC", "ions_q", ["GenAddIon", "GenPermute", "GenMerge", "GenScaleAll", "Finish"], 1500),
-            ("Electrolytes_MC", "law_q", ["GenChooseDH"], None),
-            ("Electrolytes_MC", "ab_q", ["GenChooseDH"], None),
-            ("Electrolytes_MC", "prod_q", ["GenChooseDH"], None)]
-SLICES_T = [("Electrolytes_MC", "ions_q", ["GenAddIon", "GenPermute", "GenMerge", "GenScaleAll", "Finish"], None),
-            ("Electrolytes_MC", "ions_t", [], 30000),
-            ("Electrolytes_MC", "ionsw_t", [], 30000),
-            ("Electrolytes_MC", "ions4_t", [], 30000),
-            ("Electrolytes_MCT", "law_t", ["GenChooseDH"], None),
-            ("Electrolytes_MCT", "ab_t", ["GenChooseDH"], None),
-            ("Electrolytes_MCT", "prod_t", ["GenChooseDH"], None)]
+ION_ACTIONS = ["GenAddIon", "GenPermute", "GenMerge", "GenScaleAll", "Finish"]
+SLICES_Q = [("Electrolytes_MC", "ions_q", ION_ACTIONS, 1000),
+            ("Electrolytes_MC", "dh_q", ["GenChooseDH"], None)]
+SLICES_T = [("Electrolytes_MC", "ions_q", ION_ACTIONS, 3000),
+            ("Electrolytes_MC", "ions_t", [], 3000),
+            ("Electrolytes_MC", "ionsw_t", [], 3000),
+            ("Electrolytes_MC", "ions4_t", [], 3000),
+            ("Electrolytes_MCT", "dh_t", ["GenChooseDH"], None)]
+DH_CLASSES = {"lim-q", "lim-irr", "ext-q", "ext-irr", "dav-q", "dav-irr", "A-irr", "B-irr", "lap-irr", "eap-irr",
+              "dap-irr"}
 
 
 def _nontrivial(case):
@@ -360,19 +361,23 @@ def run(ctx):
     total_cases = 0
     for module, sl, actions, cap in (SLICES_Q if ctx.quick else SLICES_T):
         cfg = "Electrolytes_MC_%s.cfg" % sl
-        res = ctx.tlc(module, cfg, require_actions=actions, require_cases=20, timeout=1500)
+        res = ctx.tlc(module, cfg, require_actions=actions, require_cases=20, timeout=1500, java_opts=JAVA_OPTS)
         cases = res.cases
         total_cases += len(cases)
         classes = sorted({c["cls"] for c in cases})
         ctx.counters["classes_" + sl] = len(classes)
         if sl.startswith("ions"):
-            need = {"I-neutral", "I-charged", "I-band"}
+            # the guard band needs three ions (two opposite charges that cancel + a trace ion)
+            need = {"I-neutral", "I-charged"} | ({"I-band"} if sl != "ionsw_t" else set())
             have = {"-".join(c.split("-")[:2]) for c in classes}
             if not need <= have:
                 raise core.MachineryFailure("vacuity: slice %s lacks classes %s" % (sl, sorted(need - have)))
-        if sl.startswith("law") and not ({"lim-q", "lim-irr", "ext-q", "ext-irr", "dav-q", "dav-irr"} <= set(classes)):
-            raise core.MachineryFailure("vacuity: slice %s lacks an exact or a term class: %s" % (sl, classes))
-        sel = ctx.pick(cases, cap, always=lambda c: c["cls"].startswith("I-neutral") or c["cls"].startswith("I-band"))
+        if sl.startswith("dh") and not (DH_CLASSES <= set(classes)):
+            raise core.MachineryFailure("vacuity: slice %s lacks classes %s" % (sl, sorted(DH_CLASSES - set(classes))))
+        # quick: every neutral / guard-band case of the (small) slice is replayed; thorough slices are
+        # large, there the stratified sample keeps every class represented
+        sel = ctx.pick(cases, cap, always=lambda c: ctx.quick and (c["cls"].startswith("I-neutral")
+                                                                   or c["cls"].startswith("I-band")))
         outs = ctx.pmap(replay_case, sel)
         ctx.cases_replayed += len(sel)
         for case, (n, bad) in zip(sel, outs):
@@ -389,7 +394,7 @@ def run(ctx):
     ctx.counters["tlc_cases"] = total_cases
 
     # ---- code -> spec: seeded ion lists beyond the bounds, judged by TLC
-    n = 1500 if ctx.quick else 20000
+    n = 1000 if ctx.quick else 6000
     items = [gen_trace(ctx.rng) for _ in range(n)]
     outs = ctx.pmap(run_trace, items)
     traces, keep = [], []
